@@ -29,7 +29,8 @@ SUFFIX = {"int": "", "uint": "U", "long": "L", "ulong": "UL", "llong": "LL", "ul
 LITBITS = {"int": 32, "long": 64, "llong": 64}
 DEVS = ["LogicalReturnsOperand", "BoolCastTruncates", "FloatToUnsignedRejectsNeg", "FloatCondNotFolded",
         "UnevaluatedOperandFolded", "NoDivisionGuard", "CondSameTypeNoPromotion", "BareAddressMinusRejected"]
-ICE_CONTEXTS = ("array", "enum", "case", "casedup", "bitfield", "alignas", "sa_eq", "sa_ne")
+ICE_CONTEXTS = ("array", "array_neg", "enum", "case", "casedup", "bitfield", "alignas", "sa_eq", "sa_ne", "sa_direct")
+NEGATIVE = ("sa_ne", "casedup", "array_neg")          # contexts that must be rejected: one compilation each
 
 
 # ---------------------------------------------------------------------------------------------
@@ -216,7 +217,7 @@ def project(ctx, c, which):
         return basic(r) or (("data", image(r)) if r["c"] else REJECT)
     if ctx == "generic":
         return ("type", c["s"]["t"] if which == "s" else c["mt"])
-    if ctx in ("enum", "case", "casedup") or (ctx in ("bitfield", "alignas") and c["direct"][ctx]):
+    if ctx in ("enum", "case", "casedup", "sa_direct") or (ctx in ("bitfield", "alignas") and c["direct"][ctx]):
         r = c["s"] if which == "s" else c["m"]
         b = basic(r)
         if b:
@@ -227,13 +228,15 @@ def project(ctx, c, which):
             return ("value", u64(r["v"]))
         if ctx == "case":
             return ("accept",)
+        if ctx == "sa_direct":
+            return ("accept",) if u64(r["v"]) != 0 else REJECT
         if ctx == "casedup":
             return REJECT if r["v"] == c["s"]["v"] else ("accept",)
         x = u64(r["v"])
         if ctx == "bitfield":
             return ("value", (1 << x) - 1) if 1 <= x <= 32 else REJECT
         return ("value", max(x, 1)) if x & (x - 1) == 0 and x < (1 << 31) else REJECT
-    if ctx in ("array", "sa_eq", "bitfield", "alignas"):
+    if ctx in ("array", "array_neg", "sa_eq", "bitfield", "alignas"):
         r = c["seq"] if which == "s" else c["meq"]
         b = basic(r)
         if b:
@@ -243,6 +246,8 @@ def project(ctx, c, which):
         truth = u64(r["v"]) != 0
         if ctx in ("array", "sa_eq"):
             return ("accept",) if truth else REJECT
+        if ctx == "array_neg":
+            return REJECT if truth else ("accept",)
         if ctx == "bitfield":
             return ("value", (1 << (5 if truth else 9)) - 1)
         return ("value", 16 if truth else 32)
@@ -263,7 +268,7 @@ def project(ctx, c, which):
 def devs_of(ctx, c):
     if ctx in ("addr", "addr_thread"):
         return sorted(c["m"]["dv"])
-    key = {"static": "ma", "thread": "ma", "generic": "m", "enum": "m", "case": "m", "casedup": "m", "sa_ne": "mne",
+    key = {"static": "ma", "thread": "ma", "generic": "m", "enum": "m", "case": "m", "casedup": "m", "sa_direct": "m", "sa_ne": "mne",
            "condsel": "msel"}.get(ctx)
     if key is None:
         key = "m" if ctx in ("bitfield", "alignas") and c["direct"][ctx] else "meq"
@@ -313,7 +318,9 @@ def contexts_of(c):
         return ["addr", "addr_thread"]
     ctxs = ["static", "thread", "array", "sa_eq", "sa_ne", "condsel", "generic"]
     if c["isint"]:
-        ctxs += ["enum", "case", "casedup", "bitfield", "alignas"]
+        ctxs += ["enum", "case", "casedup", "bitfield", "alignas", "sa_direct"]
+    if c["i"] % 8 == 0:
+        ctxs.append("array_neg")
     return ctxs
 
 
@@ -332,6 +339,10 @@ def decl(ctx, c):
         return "_Thread_local %s t%d = %s;" % (T, i, E)
     if ctx == "array":
         return "char a%d[(%s) == %s ? 1 : -1];" % (i, E, V)
+    if ctx == "array_neg":
+        return "char n%d[(%s) == %s ? -1 : 1];" % (i, E, V)
+    if ctx == "sa_direct":
+        return "_Static_assert(%s, \"d%d\");" % (E, i)
     if ctx == "enum":
         return "enum { k%d = %s }; unsigned long long e%d = k%d;" % (i, E, i, i)
     if ctx == "case":
@@ -364,11 +375,14 @@ def observe(ctx, c, rc, mod, err):
         return CRASH if rc != -999 else ("hang",)
     if rc != 0:
         return REJECT
-    if ctx in ("case", "casedup", "sa_eq", "sa_ne"):
+    if ctx in ("case", "casedup", "sa_eq", "sa_ne", "sa_direct", "array_neg"):
         return ("accept",)
     d = mod["byname"].get("%s%d" % (NAME[ctx], c["i"]))
     if d is None:
         return ("missing",)
+    total = sum(it["n"] for it in d["items"] if it["k"] == "z")
+    if total > 4096:
+        return ("size", total)
     img, rel = ilparse.data_image(d)
     if ctx in ("addr", "addr_thread"):
         if d["thread"] != (ctx == "addr_thread") or len(rel) != 1 or len(img) != 8:
@@ -407,6 +421,7 @@ class Runner:
         self.ctx, self.objdir, self.target = ctx, objdir, target
         self.tracedir = tracedir
         self.nrun = 0
+        self.batchno = 0
         self.traces = []
 
     def compile(self, src, trace=False):
@@ -423,6 +438,51 @@ class Runner:
             except ilparse.ILSyntaxError as ex:
                 return rc, None, "IL syntax: %s" % ex
         return rc, mod, err
+
+
+def compile_many(runner, sources, need_out=True, chunk=120):
+    """many small compilations through a few shell loops (python's per-process overhead dominates otherwise);
+    returns [(rc, parsed IL or None, stderr)] with rc < 0 for a signal, -999 for a timeout"""
+    if not sources:
+        return []
+    runner.batchno += 1
+    base = os.path.join(runner.ctx.path("many"), "%s.%d" % (runner.target, runner.batchno))
+    os.makedirs(base, exist_ok=True)
+    for k, src in enumerate(sources):
+        with open(os.path.join(base, "%d.c" % k), "w") as f:
+            f.write(src)
+    exe = os.path.join(runner.objdir, "cproc-qbe")
+    script = ('for k in "$@"; do timeout 60 %s -t %s %s/$k.c >%s 2>%s/$k.err; echo $? >%s/$k.rc; done'
+              % (exe, runner.target, base, ("%s/$k.out" % base) if need_out else "/dev/null", base, base))
+    idx = list(range(len(sources)))
+
+    def go(part):
+        env = dict(os.environ)
+        if runner.tracedir:
+            tr = os.path.join(runner.tracedir, "m%d.%d.%d.ndjson" % (os.getpid(), runner.batchno, part[0]))
+            runner.traces.append(tr)
+            env["CPROC_VERIF_TRACE"] = tr
+        subprocess.run(["sh", "-c", script, "sh"] + [str(k) for k in part], env=env, stdout=subprocess.DEVNULL, stderr=subprocess.DEVNULL)
+    vlib.pmap(go, [idx[i:i + chunk] for i in range(0, len(idx), chunk)], workers=14)
+    res = []
+    for k in idx:
+        try:
+            rc = int(open(os.path.join(base, "%d.rc" % k)).read().strip())
+        except (OSError, ValueError):
+            raise vlib.MachineryError("compile_many: no exit status for %s/%d.c" % (base, k))
+        err = open(os.path.join(base, "%d.err" % k), errors="replace").read()
+        rc = -999 if rc == 124 else -(rc - 128) if rc > 128 else rc
+        mod = None
+        if rc == 0 and need_out:
+            try:
+                mod = parse_il(open(os.path.join(base, "%d.out" % k), errors="surrogateescape").read())
+            except ilparse.ILSyntaxError as ex:
+                err = "IL syntax: %s" % ex
+        res.append((rc, mod, err))
+    runner.nrun += len(sources)
+    import shutil
+    shutil.rmtree(base, ignore_errors=True)
+    return res
 
 
 # ---------------------------------------------------------------------------------------------
@@ -465,14 +525,13 @@ def run_cases(ctx, runner, cases, tag, batch=40):
         else:
             deviating = any(c[k]["dv"] for k in ("m", "ma", "meq", "mne", "msel")) or c["mt"] != c["s"]["t"]
         (solo if deviating else clean).append(c)
-    positive = lambda c: [x for x in contexts_of(c) if x not in ("sa_ne", "casedup")]
-
-    def one_context(c, cx):
-        rc, mod, err = runner.compile(prelude([c]) + decl(cx, c) + "\n")
-        judge(ctx, c, cx, observe(cx, c, rc, mod, err), tag)
+    positive = lambda c: [x for x in contexts_of(c) if x not in NEGATIVE and not (x == "sa_direct" and project(x, c, "s") == REJECT)]
+    negative = lambda c: [x for x in contexts_of(c) if x not in positive(c)]
 
     def unit(cs):
         return prelude(cs) + "\n".join(decl(cx, c) for c in cs for cx in positive(c)) + "\n"
+
+    singles = []          # (case, context) pairs that get a compilation of their own
 
     def do_batch(cs):
         rc, mod, err = runner.compile(unit(cs), trace=True)
@@ -486,15 +545,26 @@ def run_cases(ctx, runner, cases, tag, batch=40):
             do_batch(cs[:h])
             do_batch(cs[h:])
             return
-        for cx in positive(cs[0]):
-            one_context(cs[0], cx)
+        singles.extend((cs[0], cx) for cx in positive(cs[0]))
 
     batches = [clean[i:i + batch] for i in range(0, len(clean), batch)]
     vlib.pmap(do_batch, batches, workers=12)
-    vlib.pmap(lambda c: [one_context(c, cx) for cx in positive(c)], solo, workers=12)
-    # negative contexts: one compilation each, must be rejected (guards against a vacuous always-accept)
-    neg = [(c, cx) for c in clean + solo for cx in contexts_of(c) if cx in ("sa_ne", "casedup")]
-    vlib.pmap(lambda p: one_context(*p), neg, workers=12)
+    # cases on which a named deviation fires: the whole unit first; when that is refused (as predicted for most of
+    # them) the contexts that pin the folded value down are compiled one by one
+    core = ("static", "sa_eq", "condsel", "generic", "enum", "addr")
+    solo_res = compile_many(runner, [unit([c]) for c in solo])
+    for c, (rc, mod, err) in zip(solo, solo_res):
+        if rc == 0 and mod is not None:
+            for cx in positive(c):
+                judge(ctx, c, cx, observe(cx, c, 0, mod, err), tag)
+        else:
+            singles.extend((c, cx) for cx in positive(c) if cx in core)
+    # contexts that must be rejected: one compilation each (guards against a vacuous always-accept)
+    singles += [(c, cx) for c in clean for cx in negative(c) if cx != "casedup" or c["i"] % 4 == 1 or not ctx.quick]
+    singles += [(c, cx) for c in solo for cx in negative(c) if cx == "sa_ne"]
+    results = compile_many(runner, [prelude([c]) + decl(cx, c) + "\n" for c, cx in singles])
+    for (c, cx), (rc, mod, err) in zip(singles, results):
+        judge(ctx, c, cx, observe(cx, c, rc, mod, err), tag)
     ctx.validated(len(clean) + len(solo))
     return clean, solo
 
@@ -503,12 +573,11 @@ def run_undefined(ctx, runner, cases, tag):
     """cases without a prescribed value (division by zero, overflow, ...): the compiler must not die"""
     und = [c for c in cases if c["s"]["st"] == "ub"]
 
-    def one(c):
-        src = prelude([c]) + (decl("addr", c) if c["f"] == "addr" else "%s v%d = %s;" % (c["T"], c["i"], c["E"])) + "\n"
-        rc, mod, err = runner.compile(src)
+    srcs = [prelude([c]) + (decl("addr", c) if c["f"] == "addr" else "%s v%d = %s;" % (c["T"], c["i"], c["E"])) + "\n" for c in und]
+    for c, src, (rc, mod, err) in zip(und, srcs, compile_many(runner, srcs, need_out=False)):
         ctx.count("%s|nocrash|%s" % (tag, c["E"]), nontrivial=True)
         if rc >= 0:
-            return
+            continue
         mm = c["m"] if c["f"] == "addr" else c["ma"]
         dv = sorted(set(mm["dv"]))
         case = {"source": src, "rc": rc, "model": mm["st"], "deviations": dv}
@@ -517,7 +586,6 @@ def run_undefined(ctx, runner, cases, tag):
                 ctx.violation("fold:dev=%s" % d, "cproc-qbe dies with signal %d folding `%s`" % (-rc, c["E"]), case)
         else:
             ctx.violation("fold:crash:%s" % ",".join(ops_of(c["e"])), "cproc-qbe dies (rc %d) on `%s`" % (rc, src.strip()), case)
-    vlib.pmap(one, und, workers=12)
     return len(und)
 
 
